@@ -222,6 +222,80 @@ def h_load(ctx):
     ctx.claim("the path is recorded iff a path was given", ("file" in grid.attrs) == bool(via_path))
 
 
+def h_unreadable(ctx):
+    """the body cannot be parsed (ragged wrapped rows): the error reaches the caller, no grid is returned and
+    a file opened by load_surfer is closed"""
+    via_path = ctx.cfg["path"]
+    w, e, s, n = ctx.real("W"), ctx.real("E"), ctx.real("S"), ctx.real("N")
+    if ctx.sym:
+        lines = [Line("DSAA\n"), Line("shape\n", [Tok("r", 2), Tok("c", 6)]), Line("sn\n", [Tok("s", s), Tok("n", n)]), Line("we\n", [Tok("w", w), Tok("e", e)]), Line("range\n", [Tok("lo", 0.0), Tok("hi", 1.0)])]
+        del OPENED[:]
+
+        def bad_loadtxt(f, dtype="float64", **kw):
+            raise ValueError("the number of columns changed from 4 to 2 at row 2; use `usecols` to select a subset")
+
+        npx.NP.loadtxt = bad_loadtxt
+        old_open = vio.__dict__.get("open")
+        vio.open = _fake_open_factory(lambda: FakeFile(lines, None))
+        mine = FakeFile(lines, None)
+        try:
+            try:
+                vd.load_surfer("some/path.grd" if via_path else mine)
+                raised = False
+            except (IOError, ValueError):
+                raised = True
+        finally:
+            if old_open is None:
+                del vio.open
+            else:
+                vio.open = old_open
+            del npx.NP.loadtxt
+        ctx.claim("an unreadable body is refused with an error", raised)
+        if via_path:
+            ctx.claim("a file opened by load_surfer is closed when reading the body fails", And(len(OPENED) == 1, all(f.closed for f in OPENED)))
+        else:
+            ctx.claim("a caller's file object is left open when reading the body fails", And(len(OPENED) == 0, not mine.closed))
+        return
+    tmp = tempfile.mkdtemp(prefix="symx_c19_", dir="/dev/shm" if os.path.isdir("/dev/shm") else None)
+    path = os.path.join(tmp, "ragged.grd")
+    with open(path, "w") as fh:
+        fh.write("DSAA\n2 6\n%r %r\n%r %r\n0.0 1.0\n" % (float(s), float(n), float(w), float(e)))
+        fh.write("0.0 0.1 0.2 0.3\n0.4 0.5\n0.6 0.7 0.8 0.9\n1.0 0.5\n")
+    real_opened = []
+
+    def recording_open(*a, **kw):
+        fh = open(*a, **kw)
+        real_opened.append(fh)
+        return fh
+
+    vio.open = recording_open
+    fobj = None
+    try:
+        try:
+            if via_path:
+                vd.load_surfer(path)
+            else:
+                fobj = open(path)
+                vd.load_surfer(fobj)
+            raised = False
+        except (IOError, ValueError):
+            raised = True
+        ctx.claim("an unreadable body is refused with an error", raised)
+        if via_path:
+            ctx.claim("a file opened by load_surfer is closed when reading the body fails", And(len(real_opened) == 1, all(fh.closed for fh in real_opened)))
+        else:
+            ctx.claim("a caller's file object is left open when reading the body fails", And(len(real_opened) == 0, not fobj.closed))
+    finally:
+        del vio.open
+        for fh in real_opened + ([fobj] if fobj else []):
+            fh.close()
+        try:
+            os.remove(path)
+            os.rmdir(tmp)
+        except OSError:
+            pass
+
+
 def _cfg(tier, seed):
     out = [{"shape": (2, 2), "path": True}, {"shape": (2, 3), "path": False, "blankable": 2}, {"shape": (3, 2), "path": True, "blankable": 1}]
     if tier == "thorough":
@@ -230,6 +304,7 @@ def _cfg(tier, seed):
 
 
 HARNESSES = [
+    Harness("unreadable_body", h_unreadable, {"quick": [{"path": True}, {"path": False}]}, bounds="symbolic header ranges; the body parser raises (ragged wrapped rows in the replay's real file)", stubs=["np.loadtxt -> raises ValueError (symbolic run)", "builtin open -> fake file recording close()"]),
     Harness(
         "load_surfer",
         h_load,
